@@ -1,22 +1,35 @@
 (* C01 — Parsing is total: any text yields a template or an error, never a crash.
-   Statements only; proofs in proofs/PegProofs.v, about coq/gen/Grammar.v (regenerated from
-   crates/core/src/parser/grammar.pest on every run) under the pest semantics of model/Peg.v.
+   Statements only; proofs in proofs/PegProofs.v, proofs/PegTotal.v and proofs/BlockProofs.v.
 
-   PARTIAL.  Proved, for every text:
-     - the lax top-level grammar never rejects: whenever its evaluation finishes it has matched, and
-       it has matched the whole text — so `LiquidParser::parse(Rule::LaxLiquidFile, ..).expect(..)`
-       in parser.rs cannot meet a grammar failure, and every element the block parsers see is one of
-       Expression / Tag / Raw / InvalidLiquid followed by exactly one EOI;
-     - the semantics is a function of the text alone: more fuel never changes an answer, and
-       lookahead mode changes the pair stream only, never what is matched;
-     - integer literals: only numerals of the signed 64-bit range are converted (C07
-       integer_conversion_in_range), the others are rejected by the guard added in the repair.
-   Not proved: that pest's evaluation of this grammar always finishes (no rule is left-recursive
-   and every repetition consumes; the correspondence runs evaluate ~10^5 texts with a fuel linear
-   in the length and never ran out), and the panic freedom of the recursive-descent code in
-   parser.rs and the tag/block `parse` methods above the pair stream, which is explored by the
-   enumeration of tools/props/c01.py (catch_unwind, exit status, time limit), not modelled. *)
-From LV Require Import Base Peg Grammar PegProofs.
+   Two layers, as in the code.
+   (1) The grammar: coq/gen/Grammar.v (regenerated from crates/core/src/parser/grammar.pest on every run,
+       together with a termination certificate: which rules can match the empty text, and a rank that
+       decreases along every call made before a character is consumed) under the pest semantics of
+       model/Peg.v.  Proved, for every text:
+       - pest's evaluation of the lax top-level rule finishes, and finishes with a match of the whole
+         text (lax_parse_total) — so `LiquidParser::parse(Rule::LaxLiquidFile, ..).expect(..)` in
+         parser.rs cannot fail; every rule of the grammar terminates from every position
+         (every_rule_terminates); the theorem behind both is generic: any grammar with a certificate
+         that the boolean checker wf_cert accepts terminates on every text (pest_terminates);
+       - the semantics is a function of the text alone: more fuel never changes an answer, and
+         lookahead mode changes the pair stream only, never what is matched;
+       - integer literals: only numerals of the signed 64-bit range are converted (C07
+         integer_conversion_in_range), the others are rejected by the guard added in the repair.
+   (2) The block machinery above the pair stream: model/BlockParse.v transcribes parse(), TagBlock::next,
+       escape_liquid, parse_all, assert_empty, BlockElement::parse_pair and the element loops of
+       if/unless/case/for/tablerow/capture/ifchanged/comment/raw over the shared iterator, with every
+       expect/assert!/panic! of that code as an explicit Panic outcome and the verdict of each element's own
+       argument parser as an input bit.  Proved: for every element stream (any elements, then the EOI pest
+       always appends) and every combination of those verdicts, the outcome is a template or an error —
+       never a panic, and never out of fuel (blocks_never_panic).  Tied to the code by the C01/blocks
+       correspondence (tools/props/c01.py: element stream and verdict bits observed on the implementation,
+       outcome class of the model == outcome class of parse()).
+   PARTIAL in this sense: the argument parsers of the individual tags (TagTokenIter, expect_*,
+   parse_condition, the for/tablerow/cycle/include argument grammars) and the filter-chain construction
+   are not modelled; their panic freedom is explored by the enumeration of tools/props/c01.py
+   (catch_unwind, exit status, time limit), not proved. *)
+From LV Require Import Base Peg Grammar PegProofs PegTotal BlockParse BlockProofs.
+
 
 Theorem lax_grammar_never_rejects : forall fuel s,
   parse liquid_grammar liquid_ws fuel r_LaxLiquidFile s <> Some None.
@@ -37,6 +50,45 @@ Theorem lookahead_matches_the_same : forall g ws f at_ e s pos r, ev g ws f at_ 
   exists r', ev g ws f at_ false e s pos = Some r' /\ shape r' = shape r.
 Proof. exact PegProofs.ev_la_shape. Qed.
 
+
+(* termination of pest, for any grammar that carries a checked certificate ... *)
+Theorem pest_terminates : forall g ws hint rank K, wf_cert g ws hint rank K = true ->
+  forall e s at_ la pos, stars_ok g hint e = true ->
+  exists f r, forall f', f <= f' -> ev g ws f' at_ la e s pos = Some r.
+Proof. exact PegTotal.terminates. Qed.
+(* ... for liquid's grammar: the top-level parse finishes, matching the whole text ... *)
+Theorem lax_parse_total : forall s, exists f, forall f', f <= f' ->
+  exists pos ts, parse liquid_grammar liquid_ws f' r_LaxLiquidFile s = Some (Some ([], pos, ts)).
+Proof. exact PegTotal.lax_parse_total. Qed.
+(* ... and so does every rule, in every mode, from every position *)
+Theorem every_rule_terminates : forall n s at_ la pos, n < length liquid_grammar ->
+  exists f r, forall f', f <= f' -> ev liquid_grammar liquid_ws f' at_ la (PRef n) s pos = Some r.
+Proof. exact PegTotal.every_rule_terminates. Qed.
+
+(* the block machinery: a template or an error, for every element stream and every verdict of the
+   argument parsers; in particular assert_empty's assertion, escape_liquid's panic! and the
+   "File shouldn't end before EOI" expectation are never reached *)
+Theorem blocks_never_panic : forall body, Forall (fun e => e <> EEOI) body ->
+  parse_elements (body ++ [EEOI]) = POk \/ parse_elements (body ++ [EEOI]) = PErr.
+Proof. exact BlockProofs.blocks_total. Qed.
+(* the same for every state the loops can be in, with the fuel each needs *)
+Theorem blocks_invariant : forall n,
+  (forall e it, e <> EEOI -> live it = true -> efacts n it (parse_elem n e it)) /\
+  (forall k, lok n (parse_all n k)) /\ (forall c, lok n (parse_if n c)) /\
+  (forall k b, lok n (else_loop n k b)) /\ lok n (case_loop n) /\ lok n (comment_loop n).
+Proof. exact BlockProofs.blocks_inv. Qed.
+
+(* non-vacuity of the block theorem: streams on which the pinned code panicked
+   ({% comment %}{% if x %} ; {% comment %}{% raw %}{% endcomment %} ; an invalid token in a block in a comment)
+   are errors / templates here, and an unclosed block is an error *)
+Example blocks_nonvacuous :
+  parse_elements [ETag KComment true true; ETag KIf true false; EEOI] = PErr /\
+  parse_elements [ETag KComment true true; ETag KRaw true true; ETag KEndcomment true true; EEOI] = PErr /\
+  parse_elements [ETag KComment true true; ETag KIf true false; EInv; ETag KEndif true true; ETag KEndcomment true true; EEOI] = POk /\
+  parse_elements [ETag KCase true false; ETag KWhen true false; ERaw; ETag KElse true true; EExp true; ETag KEndcase true true; EEOI] = POk /\
+  parse_elements [ETag KFor true false; ETag KElse true false; ETag KEndfor true true; EEOI] = PErr.
+Proof. vm_compute. repeat split; reflexivity. Qed.
+
 (* non-vacuity: a text with an unterminated output tag and a 20-digit literal is matched entirely,
    with InvalidLiquid pairs, and ends with the EOI pair the block parsers rely on *)
 Example c01_nonvacuous :
@@ -55,3 +107,8 @@ Print Assumptions lax_grammar_consumes_everything.
 Print Assumptions element_or_invalid.
 Print Assumptions more_fuel_same_answer.
 Print Assumptions lookahead_matches_the_same.
+Print Assumptions pest_terminates.
+Print Assumptions lax_parse_total.
+Print Assumptions every_rule_terminates.
+Print Assumptions blocks_never_panic.
+Print Assumptions blocks_invariant.
